@@ -32,7 +32,7 @@ func msgDir(prop, id, dir string, snd, rcv []Event, toCaller bool) []Violation {
 		case "send-begin":
 			submitted = append(submitted, identOf(e))
 		case "send":
-			if e.Err == "" {
+			if e.OK() {
 				acked = append(acked, identOf(e))
 			}
 		}
@@ -41,13 +41,13 @@ func msgDir(prop, id, dir string, snd, rcv []Event, toCaller bool) []Violation {
 	for _, e := range rcv {
 		switch e.Op {
 		case "recv":
-			if e.Err == "" {
+			if e.OK() {
 				got = append(got, identOf(e))
 			} else if e.Code == "EOF" {
 				normalEnd = true // handler saw end-of-stream / caller saw OK
 			}
 		case "invoke":
-			if e.Err == "" {
+			if e.OK() {
 				got = append(got, identOf(e))
 				normalEnd = true
 			}
@@ -56,7 +56,7 @@ func msgDir(prop, id, dir string, snd, rcv []Event, toCaller bool) []Violation {
 	// a unary handler's response is "submitted" by returning it
 	if toCaller {
 		for _, e := range snd {
-			if e.Op == "returned" && e.Err != "" {
+			if e.Op == "returned" && !e.OK() {
 				// handler failed: nothing more can be required
 			}
 		}
@@ -128,7 +128,7 @@ func StdWorkload(id string, tag byte, shape string, req, resp []int) Workload {
 func RunWorkloads(w *World, cfg TunCfg, wls []Workload) *Tun {
 	t := w.OpenTunnel(cfg)
 	if t.StartErr != nil {
-		w.Log(Event{Actor: "env", Op: "start", Err: t.StartErr.Error()})
+		w.Log(Event{Actor: "env", Op: "start", Err: t.StartErr.Error(), Code: "start-failed"})
 		return t
 	}
 	var ts = w.StartCallers(t, wls)
@@ -347,11 +347,11 @@ func completeOK(w *World, prop string, wl Workload) []Violation {
 	ok := false
 	n := 0
 	for _, e := range w.EventsOf("caller:" + id) {
-		if e.Op == "invoke" && e.Err == "" {
+		if e.Op == "invoke" && e.OK() {
 			ok = true
 		}
 		if e.Op == "recv" {
-			if e.Err == "" {
+			if e.OK() {
 				n++
 			} else if e.Code == "EOF" {
 				ok = true
